@@ -1,14 +1,7 @@
-import Prom.Model.PbDecode
-import Prom.Gen.PbTables
-/-
-C13 — Protobuf exposition decodes to the gathered state.
-`writerTable` is regenerated from proto/proto_model.rs (what the code writes), `schema` from
-proto/proto_model.proto (what the format declares), by two different parsers; their compatibility
-is a theorem re-checked on every run.
--/
+import Prom.Lemmas.C13Aux
+
 namespace Prom.C13
 open Prom Prom.Pb
-
 /-! ### the regenerated tables are compatible -/
 
 def kindCompat : FKind → FKind → Bool
@@ -49,50 +42,6 @@ theorem metric_type_numbers :
   decide +kernel
 
 /-! ### primitives round-trip -/
-
-theorem toUInt8_toNat (n : Nat) (h : n < 256) : n.toUInt8.toNat = n := by
-  show (UInt8.ofNat n).toNat = n
-  rw [UInt8.toNat_ofNat']
-  omega
-
-theorem varint_roundtrip_fuel : ∀ (f n : Nat) (rest : List UInt8), n < 128 ^ (f + 1) →
-    readVarint (f + 1) (varintFuel (f + 1) n ++ rest) = some (n, rest) := by
-  intro f
-  induction f with
-  | zero =>
-    intro n rest h
-    have hn : n < 128 := by simpa using h
-    have hb : n.toUInt8 < 128 := by
-      rw [UInt8.lt_iff_toNat_lt, toUInt8_toNat n (by omega)]
-      show n < 128
-      exact hn
-    simp [varintFuel, hn, readVarint, hb, toUInt8_toNat n (by omega)]
-  | succ f ih =>
-    intro n rest h
-    unfold varintFuel
-    by_cases hn : n < 128
-    · have hb : n.toUInt8 < 128 := by
-        rw [UInt8.lt_iff_toNat_lt, toUInt8_toNat n (by omega)]
-        show n < 128
-        exact hn
-      simp [hn, readVarint, hb, toUInt8_toNat n (by omega)]
-    · simp only [hn, if_false, List.cons_append]
-      have hbyte : (n % 128 + 128).toUInt8.toNat = n % 128 + 128 := toUInt8_toNat _ (by omega)
-      have hb : ¬ ((n % 128 + 128).toUInt8 < 128) := by
-        rw [UInt8.lt_iff_toNat_lt, hbyte]
-        show ¬ (n % 128 + 128 < 128)
-        omega
-      have hdiv : n / 128 < 128 ^ (f + 1) := by
-        have : 128 ^ (f + 1 + 1) = 128 * 128 ^ (f + 1) := by rw [Nat.pow_succ]; omega
-        rw [this] at h
-        exact Nat.div_lt_of_lt_mul h
-      unfold readVarint
-      simp only [hb, if_false]
-      rw [ih (n / 128) rest hdiv]
-      simp only [hbyte]
-      congr 1
-      congr 1
-      omega
 
 /-- **varint_roundtrip** — every 64-bit value written as a base-128 varint is read back exactly,
     leaving the rest of the stream untouched -/
